@@ -226,6 +226,18 @@ def buf_miri(mode, args_per_job, label, seed, target=None, ignore_leaks=True, ti
     return js
 
 
+def buf_valgrind(mode, seed, nshards, extra, label, crash="inconclusive"):
+    """valgrind memcheck on the plain release binary (system allocator, no ledger): invalid reads/writes/frees and
+    branches on uninitialised bytes (the engines read what the crate hands back)"""
+    build("relsys", ["bufconf"])
+    exe = binpath("relsys", "bufconf")
+    jobs = []
+    for s in range(nshards):
+        argv = ["valgrind", "--error-exitcode=9", "--quiet", "--leak-check=no", exe, mode, "--seed", str(seed), "--shard", str(s), "--nshards", str(nshards)] + extra
+        jobs.append(Job(f"{label}:{s}", argv, kind="valgrind", build="relsys", crash=crash, timeout=1500))
+    return jobs
+
+
 def run_and_finish(prop, tier, seed, t0, jobs, rule, level="exploration", key="cases", exhaustive=None, extra=None, assumptions=None, flt=None):
     agg = Agg(prop)
     for j in run_jobs(jobs):
@@ -307,8 +319,9 @@ def run_c11(prop, tier, seed, t0):
     jobs += buf_jobs("asan-rel", "writers", seed + 2, n // 2, ["--count", "20000" if quick else "500000"] + cap, "asan-rel", kind="asan", env=dict(ASAN_ENV, ASAN_OPTIONS=ASAN_ENV["ASAN_OPTIONS"].replace("detect_leaks=1", "detect_leaks=0")), parity=False)
     nm = 4 if quick else 16
     jobs += buf_miri("writers", [["--seed", str(seed), "--shard", str(k), "--nshards", str(nm), "--count", "50" if quick else "200"] for k in range(nm)], "miri-wr", seed)
+    jobs += buf_valgrind("writers", seed + 4, 4 if quick else 16, ["--count", "1500" if quick else "40000"], "valgrind-wr")
     rule = ("writer trees (Vec<u8> and BytesMut in 3 kinds with/without initial contents and spare capacity, &mut [u8] and &mut [MaybeUninit<u8>] inside guarded arenas, Chain, Limit incl. through &mut dyn, nested to depth 4, driven through dyn / &mut T / Box<T>) receive sequences of put_slice, put_bytes, every typed put_X (38 methods, values incl. sign-bit patterns, nbytes 0..=9), put(Buf) with reader trees (specialised and default put), set_limit; "
-            "sizes are chosen to fit, fill exactly, straddle leaf ends, trigger growth or not fit. After every step remaining_mut/chunk_mut laws; at the end the tree is dismantled: contents == initial ++ encodings in call order, guard bytes and bytes beyond the cursor untouched, per-leaf byte counts as chain/limit dictate, non-fitting writes must panic, every typed value is read back with the matching get_X. "
+            "sizes are chosen to fit, fill exactly, straddle leaf ends, trigger growth or not fit. After every step remaining_mut/chunk_mut laws; at the end the tree is dismantled: contents == initial ++ encodings in call order, guard bytes and bytes beyond the cursor untouched, per-leaf byte counts as chain/limit dictate, non-fitting writes must panic, every typed value is read back with the matching get_X; run on the ledger (debug, release), under ASan, Miri and valgrind memcheck. "
             "A cell = (outermost target | method | fits/exact/nofit | path).")
     return run_and_finish(prop, tier, seed, t0, jobs, rule, assumptions=["reference encodings = low-order bytes of the value in the named byte order"])
 
@@ -345,9 +358,11 @@ def run_c17(prop, tier, seed, t0):
     for j in mj3:
         j.crash = "violation"
     jobs += mj3
+    # valgrind memcheck on the plain release binary: the whole single-lie enumeration plus seeded schedules
+    jobs += buf_valgrind("faults", seed + 4, 8 if quick else 16, ["--count", "300" if quick else "20000"], "valgrind-flt", crash="violation")
     rule = ("fault injection: a Buf written in safe code lies according to a plan (which trait call number misreports: remaining +1/+9/-1/usize::MAX/0, chunk shorter/empty/a different valid slice, advance ignored/halved/doubled, or panics; chunks_vectored returning more than dst.len(); a call budget makes every schedule terminate), "
             "a variant overriding copy_to_slice / try_copy_to_slice to return without filling dst, plus AsRef owners answering differently per call / panicking and iterators with wrong size_hints. 36 crate entry points plus serde's visit_seq (lying SeqAccess::size_hint, injected element errors) consume them (every getter row, copy_to_slice/bytes incl. Chain/Take, chunks_vectored via Take/Chain, put into Vec/BytesMut/slices/Limit/Chain, Reader, IntoIter, from_owner, Extend/FromIterator, forwarding impls). "
-            "Exhaustive over entry x first lying call<=6 x 12 lie codes; every getter row on a buffer shorter than the value whose first remaining() over-reports x chunk lie x second-remaining lie; then seeded multi-lie schedules. Oracle: ledger violations, ledger leak balance after unwinding, ASan/LSan, Miri, process status; wrong results and panics are allowed. "
+            "Exhaustive over entry x first lying call<=6 x 12 lie codes; every getter row on a buffer shorter than the value whose first remaining() over-reports x chunk lie x second-remaining lie; then seeded multi-lie schedules. Oracle: ledger violations, ledger leak balance after unwinding, ASan/LSan, Miri, valgrind memcheck (results are read, so handing out uninitialised bytes is reported), process status; wrong results and panics are allowed. "
             "A cell = (entry point | outcome ok/panic/budget | number of lies).")
     return run_and_finish(prop, tier, seed, t0, jobs, rule, level="fault_enumeration", key="fault_cases",
                           assumptions=["BufMut is an unsafe trait: lying BufMut implementations are out of scope", "size_hint lies are limited to values that either panic in Vec (capacity overflow) or are small; multi-GiB requests (allocation-failure aborts) are not issued"])
